@@ -117,7 +117,7 @@ const IPCMsgType = 0x01
 // (n is taken verbatim, so hostile lengths can be produced for C16).
 func AppendPrefix(dst []byte, ipc bool, n uint64) []byte {
 	if ipc {
-		dst = append(dst)
+		dst = append(dst, IPCMsgType)
 	}
 	return putU64(dst, n)
 }
